@@ -80,7 +80,10 @@ func xmlTokens(src string) ([]string, error) {
 // strict XML documents over arbitrary element / attribute names and text (no lenient feature used)
 func genStrictXML(r *Rng) string {
 	names := []string{"mjml", "a", "b", "mj-x", "ns:el", "Item", "x_y", "d.e", "mj-body", "mj-section"}
-	texts := []string{"", "hello", " spaced  text ", "a &amp; b", "&lt;tag&gt;", "&#65;&#x42;", "line\nbreak", "\ttab", "é ü", "quote \" ' here", "]] >", "&#x1F600;&#128512;", "&#x00000E9;"}
+	texts := []string{"", "hello", " spaced  text ", "a &amp; b", "&lt;tag&gt;", "&#65;&#x42;", "line\nbreak", "\ttab", "é ü", "quote \" ' here", "]] >", "&#x1F600;&#128512;", "&#x00000E9;",
+		// CDATA sections are plain XML: whatever stands in them — quotes, ampersands, things that look like tags or entities — is
+		// character data as written
+		"<![CDATA[plain]]>", "<![CDATA[a & b <c d=\"e & f\"> &copy; &amp; &#65;]]>", "<![CDATA[ 5\" screen ]]>", "x<![CDATA[ it's \"q & r\" ]]>y", "<![CDATA[]]>", "<![CDATA[<!-- \" -->]]>"}
 	avals := []string{"v", "", "a b", "x&amp;y", "&lt;", "&quot;q&quot;", "&apos;", "é", "1&#50;3", " lead", "a\tb", "hi &#x1F600; there", "&#128512;", "&#x00000E9;", "&#0000233;x", "a&#x10FFFF;&#65;"}
 	var gen func(depth int) string
 	gen = func(depth int) string {
@@ -120,7 +123,7 @@ func genStrictXML(r *Rng) string {
 			case 0:
 				b.WriteString(r.Pick(texts))
 			case 1:
-				b.WriteString("<!-- c" + fmt.Sprint(i) + " -->")
+				b.WriteString("<!-- c" + fmt.Sprint(i) + r.Pick([]string{"", "", " 5\" ", " it's ", " \"a & b\" ", " <x y=\"", " 'p & q' > "}) + " -->")
 			default:
 				b.WriteString(gen(depth + 1))
 			}
@@ -229,6 +232,25 @@ func runC18(res *Result, tier string, seed int64, replay string) {
 		pair{"lt-in-title", "<mjml><mj-head><mj-title>a &lt; b</mj-title></mj-head><mj-body><mj-section><mj-column><mj-text>t</mj-text></mj-column></mj-section></mj-body></mjml>",
 			"<mjml><mj-head><mj-title><![CDATA[a < b]]></mj-title></mj-head><mj-body><mj-section><mj-column><mj-text>t</mj-text></mj-column></mj-section></mj-body></mjml>"},
 	)
+	// a bare ampersand in an attribute value behind material that is not markup: comments and CDATA sections whose text contains
+	// quotes (paired or not), angle brackets, ampersands — between elements, inside content, in the head, at body level
+	notMarkup := []string{`<!-- 5" screen -->`, `<!-- it's -->`, `<!-- "a" 'b -->`, `<!-- <a b=" -->`, `<!-- > " < -->`, `<!-- a & b -->`, `<!-- "x & y" -->`}
+	cdatas := []string{`<![CDATA[ 5" ]]>`, `<![CDATA[it's "x]]>`, `<![CDATA[<a b="]]>`, `<![CDATA["a & b"]]>`}
+	for _, nm := range append(append([]string{}, notMarkup...), cdatas...) {
+		isCD := strings.HasPrefix(nm, "<![")
+		var docs []string
+		docs = append(docs, wrap(`<mj-text>before `+nm+` after</mj-text><mj-image src="http://x/i.png?a=1&AMPb=2"/>`),
+			wrap(`<mj-raw>`+nm+`</mj-raw><mj-button href="http://x/?q=a&AMPr=b">Go</mj-button>`),
+			wrap(`<mj-button href="u">B `+nm+`</mj-button><mj-image src="http://x/i.png?a=1&AMPb=2" href="http://x/?c&AMPd"/>`))
+		if !isCD {
+			docs = append(docs, wrap(nm+`<mj-image src="http://x/i.png?a=1&AMPb=2"/>`+nm+`<mj-button href="http://x/?q=a&AMPr=b">Go</mj-button>`),
+				`<mjml><mj-head>`+nm+`<mj-title>t</mj-title></mj-head><mj-body>`+nm+`<mj-section><mj-column><mj-image src="http://x/i.png?a=1&AMPb=2"/></mj-column></mj-section></mj-body></mjml>`,
+				`<mjml><mj-body><mj-section>`+nm+`<mj-column><mj-text>T</mj-text></mj-column></mj-section><mj-section background-url="http://x/bg.png?a=1&AMPb=2"><mj-column><mj-text>U</mj-text></mj-column></mj-section></mj-body></mjml>`)
+		}
+		for _, d := range docs {
+			pairs = append(pairs, pair{"bare-amp-behind-non-markup:" + nm, strings.ReplaceAll(d, "&AMP", "&"), strings.ReplaceAll(d, "&AMP", "&amp;")})
+		}
+	}
 	base := wrap(`<mj-text>T <b>b</b></mj-text><mj-image src="x.png" alt="a &amp; b"/><mj-raw><div class="tracking">raw</div></mj-raw><mj-table><tr><td>c</td></tr></mj-table>`)
 	base = strings.Replace(base, "<mj-body>", `<mj-head><mj-raw><meta name="x" content="y"/></mj-raw><mj-style>.a { color: red; }</mj-style></mj-head><mj-body>`, 1)
 	// comments whose body begins or ends with the characters of the comment delimiters themselves (all well-formed XML)
